@@ -206,6 +206,15 @@ impl Model for PModel {
                     violations.push(Violation { clause: "C15.admin_unpause_clears".into(), detail: "admin unpause succeeded but the flag is still set".into() });
                 }
             }
+            PAct::Propagate => {
+                // users are judged against the group's copy of the pause state: a propagation must make it the global
+                // one, or a pause that has run out (or was lifted) keeps blocking them
+                if !committed {
+                    violations.push(Violation { clause: "C15.propagation_copies_pause_state".into(), detail: format!("propagating the pause state to the group failed with {}", crate::svm::err_name(code)) });
+                } else if post.cflag != post.flag || (post.flag && post.cx != post.x) {
+                    violations.push(Violation { clause: "C15.propagation_copies_pause_state".into(), detail: format!("after propagation the group's copy says paused={} since {} s, the global state paused={} since {} s", post.cflag, post.cx, post.flag, post.x) });
+                }
+            }
             PAct::UnpausePermissionless => {
                 if pre.flag && pre.x >= PAUSE {
                     tags.push("expired");
